@@ -89,11 +89,11 @@ Proj:
 `
 
 type c20Odd struct {
-	Name string
-	Shop string // members added to Shop (4-space indented)
+	Name  string
+	Shop  string // members added to Shop (4-space indented)
 	Store string
-	Proj string
-	Top  string // top-level text
+	Proj  string
+	Top   string // top-level text
 }
 
 var c20Odds = []c20Odd{
